@@ -35,15 +35,16 @@ REWRITERS = [mt.RemoveEmptyContainers(), mt.RewriteConfigDict(), mt.RewriteLarge
 
 
 def norm_json(text):
-    """format-agnostic normal form: every JSON array is sorted by the text of its elements, every object by key - so union
-    member order and TypedDict field order do not matter (tuple element order is checked by the round trip instead)"""
+    """format-agnostic normal form of an encoded type: every JSON *array* is sorted by the text of its elements, so union
+    member order does not matter (tuple element order is checked by the round trip instead). Object key order is kept:
+    the stored text is what rows are de-duplicated by, so two structurally equal types must agree on it."""
     def n(d):
         if isinstance(d, dict):
-            return {k: n(v) for k, v in sorted(d.items())}
+            return {k: n(v) for k, v in d.items()}
         if isinstance(d, list):
-            return sorted((n(x) for x in d), key=lambda x: json.dumps(x, sort_keys=True))
+            return sorted((n(x) for x in d), key=lambda x: json.dumps(x))
         return d
-    return json.dumps(n(json.loads(text)), sort_keys=True)
+    return json.dumps(n(json.loads(text)))
 
 
 def has_ellipsis(t):
@@ -194,6 +195,35 @@ def do_trace(ctx, fname, argspecs, k, r, y, tmpdir):
     compare(t3, "SQLiteStore file")
 
 
+def do_trace_batch(ctx, fname, tmpdir):
+    """all nine absent / NoneType / type combinations of one function in ONE batch: nine distinct rows come back and decode"""
+    import fx_basic
+    f = fx_basic.FUNCS[fname]
+    names = list(f.__code__.co_varnames[: f.__code__.co_argcount + f.__code__.co_kwonlyargcount])
+    at = {n: int for n in names}
+    opts = {"absent": None, "none": type(None), "type": str}
+    batch = [CallTrace(f, dict(at), opts[r], opts[y]) for r in RY for y in RY]
+    path = os.path.join(tmpdir, "b.sqlite3")
+    if os.path.exists(path):
+        os.unlink(path)
+    store = SQLiteStore.make_store(path)
+    store.add(batch + batch[:3])
+    store.conn.close()
+    store2 = SQLiteStore.make_store(path)
+    rows = store2.filter(f.__module__, f.__qualname__)
+    store2.conn.close()
+    spec = ["TRBATCH", fname]
+    ctx.case(spec, True, ["trace-batch"])
+    try:
+        got = sorted((("absent" if t.return_type is None else "none" if t.return_type is type(None) else "type"),
+                      ("absent" if t.yield_type is None else "none" if t.yield_type is type(None) else "type")) for t in (r.to_trace() for r in rows))
+    except Exception as e:
+        return ctx.fail(f"C08/trace-round-trip-raises:{type(e).__name__}", spec, repr(e))
+    want = sorted((r, y) for r in RY for y in RY)
+    if got != want:
+        return ctx.fail("C08/traces-of-one-batch-not-all-returned", spec, f"{fname}: stored 9 traces differing only in return/yield, got back {got}")
+
+
 def shard(ctx):
     q = ctx.tier == "quick"
     import fx_basic
@@ -227,6 +257,10 @@ def shard(ctx):
         # exhaustive: every fixture function x 9 return/yield combinations
         if ctx.shard == 0:
             for fname in sorted(fx_basic.FUNCS):
+                try:
+                    do_trace_batch(ctx, fname, tmpdir)
+                except core.Violation as v:
+                    ctx.record_violation(v.signature, v.spec, v.message)
                 for r in RY:
                     for y in RY:
                         for last in (["dict", [[["lit", "a"], ["inst", "Outer.Inner"]]]], ["inst", "Registry"], ["cls", "Registry"], ["special", "func"]):
@@ -350,6 +384,12 @@ def replay(ctx, case):
         do_values(ctx, case[1], case[2], random.Random(0), case[3])
     elif case[0] == "T":
         check_type(ctx, case, tgram.build(case[1]), "replay")
+    elif case[0] == "TRBATCH":
+        d = tempfile.mkdtemp(prefix="c08-")
+        try:
+            do_trace_batch(ctx, case[1], d)
+        finally:
+            shutil.rmtree(d, ignore_errors=True)
     elif case[0] == "TR":
         d = tempfile.mkdtemp(prefix="c08-")
         try:
